@@ -157,7 +157,7 @@ template <class S> static void drive(S& s, const std::string& cls, const Problem
                                      const std::function<long()>& applied, const std::function<void()>& reset_applied) {
     Out& out = *c.out; bool inited = false;
     FnObserver obs; obs.f = [&](const char* tag) { if (!std::strcmp(tag, "arnoldi.init") || !std::strcmp(tag, "arnoldi.compress")) { const LD b = std::fabs((LD) SpectraVerifAccess::beta(SpectraVerifAccess::fac(s)));
-        if (P.numax > 0) { c.minbeta_rel = std::min(c.minbeta_rel, b / P.numax); if (b < 1e-2L * P.numax) c.weak = true; } }
+        if (P.numax > 0 && b > 0) { c.minbeta_rel = std::min(c.minbeta_rel, b / P.numax); if (b < 1e-2L * P.numax) c.weak = true; } }      // beta == 0 is a discarded residual (abs_discard): the next step restarts from a re-orthogonalised random direction
         if (!std::strcmp(tag, "arnoldi.expand")) c.discard = true;
         if (!std::strcmp(tag, "lanczos.factorize") && SpectraVerifAccess::discarded(SpectraVerifAccess::fac(s))) c.discard = true; };
     struct Guard { Guard(Spectra::verif::Observer* o) { Spectra::verif::observer() = o; } ~Guard() { Spectra::verif::observer() = nullptr; } } guard(&obs);
